@@ -129,7 +129,14 @@ func (m *omap) iter(ex *executor) iter {
 			live = append(live, e)
 		}
 	}
-	if ex != nil && ex.cfg.AdversarialMapOrder && len(live) >= 2 {
+	if ex != nil && ex.mapOrder < 0 && len(live) >= 2 {
+		// verifSetMapOrder(-1): the order of EVERY range is a decision of its own;
+		// verifSetMapOrder(-2-i): only the order of the i-th range (counted from that call) is
+		ex.mapSeen++
+		if ex.mapOrder == -1 || ex.mapSeen-1 == -2-ex.mapOrder {
+			live = ex.permute(live)
+		}
+	} else if ex != nil && ex.cfg.AdversarialMapOrder && len(live) >= 2 {
 		live = ex.permute(live)
 	} else if ex != nil && ex.mapOrder > 0 && len(live) >= 2 {
 		// harness-selected iteration order: the k-th permutation (k-th rotation/reversal for large maps)
